@@ -129,6 +129,8 @@ def tagged_record(name_, tags, **fields):
     return name
 
 
+ASSTR = {}           # record name -> field holding the str the object IS when it is used as a string (count, strip ...)
+CLASS_ALIAS = {}     # record name -> real class whose methods / properties the record's objects have
 ASLIST = {}          # record name -> field holding the list the object IS when it is used as a list (len, join, iteration)
 
 
